@@ -107,4 +107,55 @@ def init (subs : List Upd) (g0 : Group) : State := { chan := subs, held := fun _
 
 end Legacy
 
+/-! ### dispatcher start: the initial load
+
+  `Dispatcher.Run`: `initial, it := alerts.SlurpAndSubscribe(…)` takes, atomically, a snapshot of the provider
+  and a subscription; the snapshot is routed by the `Run` goroutine itself (`routeAlert` → `Set`, one alert after
+  the other), then `run(it)` starts the distributor and the workers.  Everything that arrives on the
+  subscription was published after the snapshot was taken, so every snapshot version is OLDER than every
+  subscribed version of the same alert.
+
+  * `concurrent = false` — the code as it is: no `dist`/`apply` step is enabled while snapshot items remain.
+  * `concurrent = true`  — the snapshot is routed in the background while the workers already run. -/
+namespace Load
+
+structure State where
+  snap : List Upd          -- snapshot items still to be routed, head = next
+  w    : Workers.State     -- subscription channel, worker queues, groups
+
+inductive Step where
+  | load                       -- `Run` routes the next snapshot alert
+  | work (st : Workers.Step)   -- a step of the distributor / of a worker
+  deriving DecidableEq, Repr
+
+def step (concurrent : Bool) (owner : Nat → Nat) (s : State) : Step → Option State
+  | .load =>
+    match s.snap with
+    | [] => none
+    | u :: rest => some { snap := rest, w := { s.w with group := s.w.group.set u } }
+  | .work st =>
+    if concurrent || s.snap.isEmpty then
+      match Workers.step owner s.w st with
+      | some w' => some { s with w := w' }
+      | none => none
+    else none
+
+def run (concurrent : Bool) (owner : Nat → Nat) (s : State) : List Step → Option State
+  | [] => some s
+  | st :: rest => match step concurrent owner s st with
+    | none => none
+    | some s' => run concurrent owner s' rest
+
+/-- a dispatcher started on a provider holding `snap`; `subs` arrive on the subscription -/
+def init (snap subs : List Upd) (g0 : Group) : State := { snap, w := Workers.init subs g0 }
+
+def State.quiescent (s : State) : Prop := s.snap = [] ∧ s.w.quiescent
+
+/-- the groups after routing a whole snapshot -/
+def loadAll : List Upd → Group → Group
+  | [], g => g
+  | u :: rest, g => loadAll rest (g.set u)
+
+end Load
+
 end AM.Workers
